@@ -287,6 +287,7 @@ class Repo:
         self.root = root or REPO
         self.overrides = overrides or {}
         self.local_renames = []
+        self.normalizations = []
         self.modules = {}
         self.classes = {}     # fullname -> ClassInfo
         self.functions = {}   # fullname -> FunctionInfo (all, incl. methods & nested)
@@ -323,7 +324,8 @@ class Repo:
                 mod = rel[:-3].replace(os.sep, '.')
                 if mod.endswith('.__init__'):
                     mod = mod[:-9]
-                from . import canon
+                from . import canon, normalize
+                self.normalizations.extend(normalize.apply(tree, mod))
                 self.local_renames.extend(canon.apply(tree, mod))
                 set_parents(tree)
                 m = Module(mod, path, rel, src, tree)
